@@ -22,6 +22,9 @@ CONSTANTS
  DevInplaceInput = FALSE
  DevMoveBeforeClose = FALSE
  DevRouteDiscard = FALSE
+ DevStageFallback = FALSE
+ DevBackupSkip = FALSE
+ EnvInits <- TInits
 INVARIANT NoEarlyEffect
 INVARIANT SuccessState
 INVARIANT OthersKept
@@ -30,6 +33,8 @@ INVARIANT NoLoss
 INVARIANT BackupResolves
 INVARIANT TargetWhole
 INVARIANT TmpClean
+INVARIANT EnvFailClean
+INVARIANT SuccessHasBackup
 INVARIANT BoundOK
 INVARIANT Mark
 INVARIANT Prog
